@@ -26,6 +26,7 @@ func runC20(c *Ctx) {
 	runDstRule(c, "C20.dst", []string{"/compress"}, nil)
 	c.Min("C20.dst", 10)
 	poolRule(c, "C20.pool", []string{"/compress"})
+	runCodecResultRule(c, "C20.result", 4)
 	c20Stateless(c)
 	runTableRule(c, "C20.tables", "compressionCodecs", "CompressionCodec", 6)
 }
